@@ -53,7 +53,7 @@ def oracle_c05(inp, out):
             if e["e"] == "batch":
                 b = [int(x) for x in e["b"]]
                 if not (1 <= len(b) <= mx):
-                    v.append(({"class": "batch-size"}, "step %d: a batch of %d objects was handed to the runner function (maxBatchSize %d): %s" % (k, len(b), mx, b)))
+                    v.append(({"class": "batch-size"}, "step %d: a batch of %d objects was handed to the runner function (maxBatchSize %d): %s" % (k, len(b), mx, b), k))
                 if failed:
                     continue   # a call after an error return is C06's matter (the loop did not stop); the chain is judged up to the failure
                 before = list(handed)
@@ -63,13 +63,13 @@ def oracle_c05(inp, out):
                     v.append(({"class": "batch-boundary"},
                               "step %d: appended so far %s; already handed over %s; the next batch must continue with %s but the runner function received %s "
                               "(entries skipped, repeated or out of order at a batch boundary)" % (
-                                  k, appended[:sum(1 for o in inp["ops"][:k + 1] if o.get("op") == "append")], before, exp, b)))
+                                  k, appended[:sum(1 for o in inp["ops"][:k + 1] if o.get("op") == "append")], before, exp, b), k))
             elif e["e"] == "ret":
                 if not e["ok"]:
                     failed = True
                 if [int(x) for x in e["b"]] != [int(x) for x in e["exit"]]:
                     v.append(({"class": "batch-aliased"},
-                              "step %d: the runner function was entered with %s; when it returned the same slice held %s" % (k, e["b"], e["exit"])))
+                              "step %d: the runner function was entered with %s; when it returned the same slice held %s" % (k, e["b"], e["exit"]), k))
     return v
 
 
@@ -96,16 +96,16 @@ def oracle_c06(inp, out):
             elif e["e"] == "ack":
                 x = int(e["x"])
                 if x in acked:
-                    v.append(({"class": "ack-twice"}, "step %d: the callback of object %d runs a second time" % (k, x)))
+                    v.append(({"class": "ack-twice"}, "step %d: the callback of object %d runs a second time" % (k, x), k))
                 elif x not in persisted:
                     when = "failure" if x in failed_items else "stop" if closed else "failure" if failure else "running"
                     why = {"failure": "its runner call returned an error" if x in failed_items else "an earlier runner call had returned an error and it was never persisted",
                            "stop": "Close was called and no runner call that returned nil contained it",
                            "running": "no runner call that returned nil contained it"}[when]
                     v.append(({"class": "ack-without-persistence", "when": when},
-                              "step %d (%s): the callback of object %d runs although %s; returned nil so far: %s" % (k, st.get("op"), x, why, sorted(persisted))))
+                              "step %d (%s): the callback of object %d runs although %s; returned nil so far: %s" % (k, st.get("op"), x, why, sorted(persisted)), k))
                 elif acked and pos.get(x, -1) < pos.get(acked[-1], -1):
-                    v.append(({"class": "ack-order"}, "step %d: object %d is acknowledged after object %d, which was appended later" % (k, x, acked[-1])))
+                    v.append(({"class": "ack-order"}, "step %d: object %d is acknowledged after object %d, which was appended later" % (k, x, acked[-1]), k))
                 acked.append(x)
     return v
 
@@ -130,27 +130,41 @@ def run_cases(ctx, inputs, tag, model=True, timeout=600):
     return impl, mod
 
 
-def shrink(ctx, prop, inp, sig):
-    """greedy: drop one operation at a time (all candidates of a round in one harness run) while the same signature still shows"""
-    ops = [dict(o) for o in inp["ops"]]
+SHRINK_BUDGET_S = 90
+
+
+def shrink(ctx, prop, inp, sig, step, t_end):
+    """drop everything after the step that shows the violation, then greedily one operation at a time (candidates of a round run in
+    chunks, later operations first) while the same signature still shows; bounded by a time budget (an implementation that sleeps
+    between retries makes every run slow)"""
     mx = inp["max"]
-    observed = None
-    for _ in range(200):
-        cands = [{"id": k, "max": mx, "ops": ops[:k] + ops[k + 1:]} for k in range(len(ops)) if len(ops) > 1]
-        if not cands:
-            break
+
+    def fails(cands):
         r = run_cases(ctx, cands, "shrink", model=False)
         if r is None:
-            break
-        hit = None
-        for c in reversed(cands):   # later operations first: the tail goes quickly
+            return None
+        for c in cands:
             o = r[0].get(c["id"])
-            if o is not None and any(canon(s) == canon(sig) for s, _ in ORACLES[prop](c, o)):
-                hit = (c, o)
-                break
-        if hit is None:
-            break
+            if o is not None and any(canon(s) == canon(sig) for s, _, _ in ORACLES[prop](c, o)):
+                return c, o
+        return None
+
+    ops = [dict(o) for o in inp["ops"]]
+    observed = None
+    hit = fails([{"id": 0, "max": mx, "ops": ops[:step + 1]}]) if step + 1 < len(ops) else None
+    if hit:
         ops, observed = hit[0]["ops"], hit[1]
+    progress = True
+    while progress and len(ops) > 1 and time.time() < t_end:
+        progress = False
+        cands = [{"id": k, "max": mx, "ops": ops[:k] + ops[k + 1:]} for k in reversed(range(len(ops)))]
+        for c0 in range(0, len(cands), 6):
+            if time.time() >= t_end:
+                break
+            hit = fails(cands[c0:c0 + 6])
+            if hit:
+                ops, observed, progress = hit[0]["ops"], hit[1], True
+                break
     return {"max": mx, "ops": ops}, observed
 
 
@@ -237,7 +251,7 @@ def harness_fresh(ctx):
         return False
 
 
-def run_batcher(ctx, prop, quick_n=1500, thorough_n=40000):
+def run_batcher(ctx, prop, quick_n=1500, thorough_n=20000):
     """stage 2 of C05 / C06.  Adds to ctx: the stream batcher:model-vs-real, the oracle's violations (minimised), cov['batcher']."""
     ctx.cov["trusted_base"] = list(ctx.cov.get("trusted_base") or []) + TRUSTED
     if not ctx.ensure_driver(AREA):
@@ -254,20 +268,21 @@ def run_batcher(ctx, prop, quick_n=1500, thorough_n=40000):
         ctx.l2_broken.append({"stream": "batcher:stuck", "id": i["id"], "input": i, "impl": impl[i["id"]].get("stuck")})
     shrunk = {}
     nviol = 0
+    t_end = time.time() + SHRINK_BUDGET_S
     for inp in inputs:
         out = impl.get(inp["id"])
         if out is None:
             continue
-        for sig, what in ORACLES[prop](inp, out):
+        for sig, what, step in ORACLES[prop](inp, out):
             nviol += 1
             full = dict(sig, property=prop, component="batcher")
             rin, obs = {"max": inp["max"], "ops": inp["ops"]}, out
             if not ctx.replay_file and shrunk.get(canon(full), 0) < 2:
                 shrunk[canon(full)] = shrunk.get(canon(full), 0) + 1
-                small, o2 = shrink(ctx, prop, inp, sig)
+                small, o2 = shrink(ctx, prop, inp, sig, step, t_end)
                 if o2 is not None:
                     rin, obs = small, o2
-                    what = next((w for s, w in ORACLES[prop](small, o2) if canon(s) == canon(sig)), what)
+                    what = next((w for s, w, _ in ORACLES[prop](small, o2) if canon(s) == canon(sig)), what)
             elif not ctx.replay_file:
                 continue   # further occurrences of a signature already minimised twice
             exp = None
